@@ -1,5 +1,6 @@
 import SE.Driver.Escape
 import SE.Driver.Line
+import SE.Driver.Mapper
 /-
 sedriver: the line-protocol front end of the executable models. One operation per input
 line, one result line per operation. It executes the very definitions the theorems in
@@ -14,6 +15,7 @@ def step (line : String) : String :=
     match cmd with
     | "escape" => escapeCmd args
     | "parse" => parseCmd args
+    | "mapper" => mapperCmd args
     | _ => "bad-op"
 
 partial def loop (h : IO.FS.Stream) (out : IO.FS.Stream) : IO Unit := do
